@@ -116,6 +116,20 @@ CHECKS["C07"] = dict(
     technique="chempy's own sympy-mode residual builders as front-end, sympy->z3 translation, z3 (LRA/NRA) equivalence proofs per generated system",
     ref="DESIGN.md section 5 C07")
 
+CHECKS["C04"] = dict(
+    engine="S", category="translation_validation",
+    text="translation validation per generated reaction system x build configuration (rate constants inlined / named / Arrhenius with and "
+         "without unique keys / ArrheniusParam / active substitution (RampedTemp) / substitution vs constants object / CSTR / both builders "
+         "/ rebuild after reassigning rate constants): the real get_odesys and _create_odesys run through the real pyodesys SymbolicSys, "
+         "and z3 proves each generated right-hand side equal, as a real identity in concentrations and free parameters, to "
+         "sum_r N[r,i]*rate_r from an independent oracle; names / param_names / equation order are compared, and binding the free "
+         "parameters is proved to give the inlined build",
+    note="exp uninterpreted (argument matching); all single reactions over 2 keys with coefficients 0..2 + seeded systems (<=3 reactions, "
+         "<=4 keys; thorough <=5/<=6); pyodesys' numeric callbacks (f_cb, lambdified rate_exprs_cb) outside; zero-order steps with a bare "
+         "number and systems with spectator substances are rejected by the builders and outside the quantifier",
+    technique="chempy's own symbolic ODE builders as front-end, sympy->z3 translation, z3 validity proof per generated equation",
+    ref="DESIGN.md section 5 C04")
+
 NA = {
     "C09": "property is about float conversion factors produced inside the 'quantities' package and numpy array helpers; no symbolic "
            "value survives to_unitless (float(result)), and symbolic magnitudes alone would only re-prove linearity (DESIGN.md section 6)",
